@@ -437,6 +437,8 @@ def run(chk):
                 r[2] = r[2] or why
         for k, (n, d, first) in res.items():
             chk.corr_result('route-' + k, n, d, first, dist if k == 'plan' else None)
+        chk.oblige('probe:table-names-local', 'correspondence', R.table_names_are_local(),
+                   'prepare_integration_select no longer treats the own name of an unaliased table as a local name (regression of bd15793)')
         okv, which, detail = variants.verdict()
         chk.oblige('corr:route-variant', 'correspondence', okv, detail)
         chk.notes.append('planner follows model variant: %s' % which)
